@@ -118,6 +118,9 @@ def _gen_design_client(r, scale_exp, family):
             ops.append({"op": "strop", "matrix": _gen_matrix(r)})
     if any(o["op"] == "legal_model" for o in ops) and r.chance(0.7):
         ops.append({"op": "legal_verdicts"})
+    if r.chance(0.2):
+        # an ill-formed document arrives in the middle of the flow: the verdict (rejected) is an answer like any other
+        ops.insert(r.randint(1, len(ops)), {"op": "load_bad_alloc", "how": r.choice(["overlap", "overlap", "contained", "ratio"])})
     if edge and edge["kind"] == "near_equal_regions":
         ops.insert(2 if have_die else 1, {"op": "split", "r": r.choice([2, 3]), "n": r.randint(3, 5)})
     return {"kind": "design", "die": die, "net": nl, "edge": edge, "ops": ops,
@@ -505,6 +508,16 @@ class _DesignClient:
             desc = _norm_alloc(o["alloc"])
             self.alloc = A.Allocation(self._src(designs.alloc_tree(desc), o["via"], "alloc"))
             return sem.alloc_sem(self.alloc)
+        if k == "load_bad_alloc":
+            u = self.co.f(1)
+            if o["how"] == "overlap":
+                tree = [[[2 * u, 2 * u, 2 * u, 2 * u], {"B": 0.5}], [[3 * u, 2 * u, 2 * u, 2 * u], {"B": 0.5}]]
+            elif o["how"] == "contained":
+                tree = [[[2 * u, 2 * u, 4 * u, 4 * u], {"B": 0.5}], [[2 * u, 2 * u, u, u], {"C": 0.5}]]
+            else:
+                tree = [[[2 * u, 2 * u, 2 * u, 2 * u], {"B": 1.5}]]
+            A.Allocation(tree)      # must raise; the step's answer is the exception class
+            return "accepted"
         if k == "alloc_init":
             a = self.alloc
             if a is None:
@@ -628,7 +641,9 @@ class _SatClient:
             res = cl.m.solve()
             return {"sat": bool(res)}   # which model is exposed is the solver's choice, not an answer of the encoding
         c07_sat._apply(cl, o)
-        return {"models": sorted(cl.projected_models())}
+        # the meaning (model set on the user's variables) and the text the manager would write (DIMACS, numbered by the
+        # manager's own table, hence independent of the node numbers of the process-wide store)
+        return {"models": sorted(cl.projected_models()), "cnf": digest(cl.m.tocnf())}
 
 
 class _BulkClient:
